@@ -1,0 +1,13 @@
+//go:build verif
+
+package creds
+
+// VerifBuffer exposes Creds.buffer (the bytes written to `git credential`'s
+// stdin) to the verification harness.
+func VerifBuffer(c Creds, protectProtocol bool) ([]byte, error) {
+	b, err := c.buffer(protectProtocol)
+	if err != nil {
+		return nil, err
+	}
+	return b.Bytes(), nil
+}
